@@ -758,6 +758,34 @@ static void exec_line(char *line) {
         sample_state();
         eb_printf("\"done\":1}\n");
         eb_flush();
+    } else if (!strcmp(c, "confdump")) {
+        /* confdump <id> name,name,... : what `snoopyctl conf` prints, through the library's own exported API */
+        void (*init)(void) = (void (*)(void)) dlsym(RTLD_DEFAULT, "snoopy_entrypoint_cli_init");
+        void (*fini)(void) = (void (*)(void)) dlsym(RTLD_DEFAULT, "snoopy_entrypoint_cli_exit");
+        char *(*get)(const char *) = (char *(*)(const char *)) dlsym(RTLD_DEFAULT, "snoopy_configfile_optionRegistry_getOptionValueAsString");
+        if (!init || !fini || !get) {
+            fprintf(stderr, "vdrive: option-value API not exported by the library\n");
+            exit(3);
+        }
+        init();
+        eb_printf("{\"ev\":\"CONF\",\"id\":%ld,\"values\":{", atol(tok[1]));
+        char *dup = strdup(tok[2]), *sv = NULL;
+        int first = 1;
+        for (char *n = strtok_r(dup, ",", &sv); n; n = strtok_r(NULL, ",", &sv)) {
+            char *val = get(n);
+            eb_printf("%s\"%s\":", first ? "" : ",", n);
+            first = 0;
+            if (val) {
+                eb_printf("\"");
+                eb_hex(val, strlen(val));
+                eb_printf("\"");
+                free(val);
+            } else eb_printf("null");
+        }
+        free(dup);
+        eb_printf("}}\n");
+        eb_flush();
+        fini();
     } else if (!strcmp(c, "call")) do_call(tok, nt);
     else if (!strcmp(c, "fork")) {
         /* fork <tag> : run the following lines up to "endfork" in a child */
